@@ -341,7 +341,7 @@ func c20Timeout(d time.Duration, f func()) bool {
 // after a few hangs the remaining cases fail fast (a hang is an oracle failure, never a stuck check)
 var c20Hangs int
 
-const c20HSTimeout = 3 * time.Second
+const c20HSTimeout = 10 * time.Second
 
 func c20HonestPair(ka, kb *ecdsa.PrivateKey) (ea, eb *c20End, ra, rb c20HSResult, ok bool) {
 	ea, eb = newC20Ends()
@@ -1366,7 +1366,7 @@ func c20FeedReceiver(o *c20Out, ds []c20Desc, maxp int, stream []byte, pings boo
 	select {
 	case e := <-rc.errCh:
 		cls = c20MErrClass(e)
-	case <-time.After(5 * time.Second):
+	case <-time.After(10 * time.Second):
 		cls = "hang"
 		c20Hangs++
 		o.Fail(0, "hang", "receiver neither delivered the end of stream nor reported an error")
@@ -1862,7 +1862,7 @@ func c20MXCase(o *c20Out, idx int, r *c20Rand) {
 	select {
 	case e := <-rc.errCh:
 		cls = c20MErrClass(e)
-	case <-time.After(5 * time.Second):
+	case <-time.After(10 * time.Second):
 		cls = "hang"
 		c20Hangs++
 		o.Fail(0, "hang", "receiver neither saw the end of the stream nor reported an error")
